@@ -412,8 +412,8 @@ def run(ctx):
                             t0=ctx.t0)
 
 def replay(ctx, path):
+    d = json.load(open(path))        # before the bot moves the process to its scratch directory
     b = B()
-    d = json.load(open(path))
     c = d.get('case') or d.get('first_disagreement')
     if not c:
         print(json.dumps(d, indent=1)[:3000]); return 0
